@@ -65,6 +65,8 @@ type Canned struct {
 	Body    []byte
 	// Framing: length (Content-Length) | chunked (terminated) | unfinished (chunked, the terminating chunk
 	// never comes) | none (no body: Content-Length 0, nothing at all for 204/304) | eof (body ends with the connection)
+	// | head-unfinished (status line and headers without the blank line that ends them) | no-answer (the request
+	// is taken and not a byte comes back)
 	Framing string
 }
 
@@ -701,6 +703,16 @@ func (px *Proxy) StatusCount(code int) int {
 // answer writes the plan's canned answer; false ends the connection.
 func (pc *pconn) answer(pl *Plan, cbr *bufio.Reader) bool {
 	a := pl.Answer
+	if a.Framing == "no-answer" || a.Framing == "head-unfinished" {
+		pl.markFired()
+		if a.Framing == "head-unfinished" {
+			if !pc.w([]byte(fmt.Sprintf("HTTP/1.1 %d %s\r\n%s\r\n", a.Status, statusText(a.Status), strings.Join(a.Headers, "\r\n")))) {
+				return false
+			}
+		}
+		cbr.Peek(1) // until the client gives the connection up or the harness cuts it
+		return false
+	}
 	var b bytes.Buffer
 	fmt.Fprintf(&b, "HTTP/1.1 %d %s\r\n", a.Status, statusText(a.Status))
 	for _, h := range a.Headers {
